@@ -243,4 +243,4 @@ def check(case: dict) -> dict:
     return {'nontrivial': nontrivial, 'classes': classes}
 
 
-ENGINES = [Engine('histories', cases, check, quick=120, thorough=1500, batch=60)]
+ENGINES = [Engine('histories', cases, check, quick=120, thorough=5000, batch=100, thorough_s=1200.0)]
